@@ -279,7 +279,21 @@ func runS(c SCase) core.Result {
 		if !adopted {
 			if exp.sane && len(c.MI.Muts) == 0 && (c.MaxSize == 0 || len(infoBytes) <= c.MaxSize) && (c.MaxPieces == 0 || exp.npieces <= int64(c.MaxPieces)) && len(infoBytes) > 0 {
 				st := tor.Stats()
-				return fail("a valid, unmodified info dictionary within the limits, served by a peer, was not adopted within 10 s (status %v, peers %d)", st.Status, st.Peers.Total)
+				// stuck-state predicate: the peer offering the metadata is connected right now. If the one connection
+				// attempt to it failed (a handshake that timed out on a loaded machine), the client has nobody to ask.
+				connected := false
+				mu.Lock()
+				for _, p := range peers {
+					if !p.Closed() {
+						connected = true
+					}
+				}
+				mu.Unlock()
+				if !connected || st.Peers.Total == 0 {
+					res.Inconcl = "magnet: the scripted metadata peer is not connected at the deadline"
+					return finish()
+				}
+				return fail("a valid, unmodified info dictionary within the limits, served by a connected peer, was not adopted within 10 s (status %v, peers %d)", st.Status, st.Peers.Total)
 			}
 			return finish()
 		}
